@@ -361,16 +361,35 @@ func r10c(c *core.Ctx) {
 		}
 	}
 	// rule.upstream is what loadRule resolved for the rule's Forward tag
+	// the value stored is the expected one, or the zero value where the option is absent (a local that is only set
+	// inside the `if len(tag) > 0` block)
+	valueOrZero := func(v ssa.Value, want string) (bool, string) {
+		n := 0
+		for _, o := range core.Origins(v, core.OriginOpts{}) {
+			if core.IsNilConst(o) || isZeroConst(o) {
+				continue
+			}
+			if b, isB := core.ConstBool(o); isB && !b {
+				continue
+			}
+			n++
+			if core.Expr(o) != want {
+				return false, core.Expr(v)
+			}
+		}
+		return n > 0, core.Expr(v)
+	}
 	for _, fs := range c.FieldStores("app/router", "rule", "upstream") {
-		e := core.Expr(fs.Val)
-		c.Check(e == "r.upstreams[cfg.Forward]", "rule-upstream-by-tag", fs.Store.Pos(), fs.Fn, "a rule's upstream is the one registered under its `forward` tag", e)
+		ok, e := valueOrZero(fs.Val, "r.upstreams[cfg.Forward]")
+		c.Check(ok, "rule-upstream-by-tag", fs.Store.Pos(), fs.Fn, "a rule's upstream is the one registered under its `forward` tag", e)
 	}
 	for _, fs := range c.FieldStores("app/router", "rule", "matcher") {
-		e := core.Expr(fs.Val)
-		c.Check(e == "r.domainSets[cfg.Domain]", "rule-matcher-by-tag", fs.Store.Pos(), fs.Fn, "a rule's matcher is the domain set registered under its `domain` tag", e)
+		ok, e := valueOrZero(fs.Val, "r.domainSets[cfg.Domain]")
+		c.Check(ok, "rule-matcher-by-tag", fs.Store.Pos(), fs.Fn, "a rule's matcher is the domain set registered under its `domain` tag", e)
 	}
 	for _, fs := range c.FieldStores("app/router", "rule", "reverse") {
-		c.Check(core.Expr(fs.Val) == "cfg.Reverse", "rule-reverse", fs.Store.Pos(), fs.Fn, "a rule's reverse flag is its own configuration value", core.Expr(fs.Val))
+		ok, e := valueOrZero(fs.Val, "cfg.Reverse")
+		c.Check(ok, "rule-reverse", fs.Store.Pos(), fs.Fn, "a rule's reverse flag is its own configuration value", e)
 	}
 	for _, fs := range c.FieldStores("app/router", "rule", "reject") {
 		c.Check(core.Expr(fs.Val) == "cfg.Reject", "rule-reject", fs.Store.Pos(), fs.Fn, "a rule's reject code is its own configuration value", core.Expr(fs.Val))
